@@ -14,6 +14,8 @@ import (
 
 	"google.golang.org/protobuf/encoding/protowire"
 	"google.golang.org/protobuf/proto"
+
+	"storj.io/picobuf"
 )
 
 // decCase: Unmarshal `data` into a fresh message (or into `into` when given),
@@ -293,6 +295,19 @@ func init() {
 						}
 						u.timedDec(out, ti, b, fmt.Sprintf("nested-%d", depth))
 					}
+					// deep AND branching: at every level a deep child is followed by shallow siblings of the same field (the cursor of
+					// each enclosing message must be restored exactly after a child at any depth returns)
+					for _, depth := range []int{6, 9, 12, 20, 40} {
+						tag := protowire.AppendTag(nil, protowire.Number(f.Num), protowire.BytesType)
+						leaf := protowire.AppendBytes(append([]byte{}, tag...), nil)
+						b := append(append([]byte{}, leaf...), leaf...)
+						for i := 0; i < depth; i++ {
+							inner := protowire.AppendBytes(append([]byte{}, tag...), b)
+							sib := protowire.AppendBytes(append([]byte{}, tag...), leaf)
+							b = append(append(append([]byte{}, inner...), sib...), leaf...)
+						}
+						u.timedDec(out, ti, b, fmt.Sprintf("branching-%d", depth))
+					}
 					break
 				}
 			}
@@ -382,7 +397,11 @@ func (u *Universe) histCase(out *bufio.Writer, ti *TypeInfo, chunks [][]byte) {
 	} else {
 		flags = append(flags, "seq=bad")
 	}
-	if oneSt == "ok" && rst == "ok" && ovq == rs {
+	// Timestamp/Duration casts define their own merge: a later occurrence replaces the value, whereas the reference merges the
+	// two (seconds, nanos) messages field by field. In a history the same cast field may well occur in several chunks, so when
+	// the exact comparison fails the comparison is repeated with the time values masked (presence and list lengths still count);
+	// the model and the reference specification are compared exactly in every case.
+	if oneSt == "ok" && rst == "ok" && (ovq == rs || (rv != nil && maskTimes(quietMsg(mustRead(u, ti, one), ti)).String() == maskTimes(rv).String())) {
 		flags = append(flags, "ref=ok")
 	} else {
 		flags = append(flags, "ref=bad")
@@ -552,4 +571,29 @@ func nestedGroups(r *rng, depth int) []byte {
 		b = protowire.AppendTag(b, n, protowire.EndGroupType)
 	}
 	return b
+}
+
+func mustRead(u *Universe, ti *TypeInfo, m picobuf.Message) *Val {
+	v, err := u.read(ti, m)
+	if err != nil {
+		return &Val{T: 'm'}
+	}
+	return v
+}
+
+// maskTimes returns a copy of v in which every time.Time / time.Duration leaf is replaced by a constant.
+func maskTimes(v *Val) *Val {
+	if v == nil {
+		return nil
+	}
+	switch v.T {
+	case 't', 'd':
+		return vInt(0)
+	}
+	c := *v
+	c.L = make([]*Val, len(v.L))
+	for i, e := range v.L {
+		c.L[i] = maskTimes(e)
+	}
+	return &c
 }
